@@ -83,7 +83,8 @@ def install_inflate_wrapper() -> None:
                 ent["utf8"] = True
             except UnicodeDecodeError:
                 ent["utf8"] = False
-            ent["xeq"] = xo is not None and xo[: len(out)] == out
+            capped = bool(max_length) and len(out) >= max_length      # stopped early: the rest was never looked at
+            ent["xeq"] = capped or (xo is not None and xo[: len(out)] == out)
             return out
 
     rp.ZLibDecompressor = RecordingDecompressor  # type: ignore[misc]
